@@ -87,8 +87,15 @@ def impl_box(c):
         return {"outcome": "other:" + type(ex).__name__, "msg": str(ex)[:200]}
     res = {}
     vals = {}
+    # half of the cases hand every tuple to evaluate in ONE array object whose contents are replaced in place between the calls
+    # (callers that fill a pre-allocated buffer): validity is a property of the contents at the time of the call
+    buf = np.zeros((1, k), dtype=np.int64) if (c["seed"] + c["p"] + int(c["refit"])) % 2 == 0 else None
     for t in itertools.product(range(-2, n + 3), repeat=k):
-        cls, v = classify(lambda: sc.evaluate(np.array([t])))
+        if buf is not None:
+            buf[0, :] = t
+            cls, v = classify(lambda: sc.evaluate(buf))
+        else:
+            cls, v = classify(lambda: sc.evaluate(np.array([t])))
         if cls.startswith("other:RuntimeError") and "gcov" in c["scorer"]:
             cls = "ok"  # documented error of a valid cut with a singular sample covariance
         res[" ".join(map(str, t))] = cls
@@ -170,7 +177,8 @@ def oracle_box(c, r):
 def malformed_cases():
     out = []
     for name in SCORERS:
-        for kind in ["float", "bool", "wide", "narrow", "1d-ok", "1d-bad", "1d-multi", "1d-empty", "3d", "empty", "float-integral", "list"]:
+        for kind in ["float", "bool", "wide", "narrow", "1d-ok", "1d-bad", "1d-multi", "1d-empty", "3d", "empty", "float-integral", "list",
+                     "frame-float", "series-float", "frame-out-of-range-float"]:
             out.append({"scorer": name, "kind": kind})
     return out
 
@@ -191,6 +199,10 @@ def impl_malformed(c):
            "narrow": np.array([good[:-1]]), "1d-ok": np.array(good), "1d-bad": np.array(good[:-1]),
            "3d": np.array([[good]]), "empty": np.zeros((0, k), dtype=int), "float-integral": np.array([good], dtype=float),
            "list": [good],
+           # pandas containers holding non-integers must not be truncated into valid cuts
+           "frame-float": __import__("pandas").DataFrame(np.array([good], dtype=float) + 0.5),
+           "series-float": __import__("pandas").Series(np.array(good, dtype=float) + 0.5),
+           "frame-out-of-range-float": __import__("pandas").DataFrame(np.array([[-0.5] + good[1:-1] + [n + 0.9]], dtype=float)),
            # a flat vector as long as two rows (it is ONE row of twice the width, not two rows), and an empty flat vector
            "1d-multi": np.array({2: [0, 4, 5, 9], 3: [0, 3, 6, 6, 7, 9][:3] + [1, 5, 9], 4: [0, 2, 4, 6, 1, 3, 6, 9]}[k]),
            "1d-empty": np.array([], dtype=int)}[kind]
